@@ -42,6 +42,8 @@ def d11_paths(case):
 
 def problem_path(p):
     k = p.split(':')
+    if k[0] in ('manifest-entry-stale', 'manifest-entry-dangling') and '->' in p:
+        return p.split('->', 1)[1]
     return {'hashset': lambda: k[1], 'size': lambda: k[1], 'digest': lambda: k[2], 'coverage': lambda: k[2],
             'vanished': lambda: k[2]}.get(k[0], lambda: None)()
 
